@@ -190,3 +190,26 @@ impl WasmRun {
         Ok(ok)
     }
 }
+
+
+/// What the front end says about a source, the way the language server asks (parse + type check only):
+/// "ok" | "errors" (diagnostics) | "panic:<msg>"
+pub fn typecheck_verdict(src: &str, with_scheduler: bool) -> String {
+    use mimium_lang::compiler::{mirgen, parser};
+    let r = crate::common::guarded(|| {
+        let mut driver = LocalBufferDriver::new(0);
+        let mut ctx = new_ctx(&mut driver, with_scheduler);
+        ctx.prepare_compiler();
+        let builtin = ctx.get_compiler().unwrap().get_ext_typeinfos();
+        let path = SRC_PATH.with(|s| s.borrow().clone());
+        let (ast, module_info, parse_errs) = parser::parse_to_expr(src, path.clone());
+        let ast = if ast.has_staging_constructs() { ast.wrap_to_staged_expr() } else { ast };
+        let (_, _, type_errs) = mirgen::typecheck_with_module_info(ast, &builtin, path, module_info);
+        parse_errs.len() + type_errs.len()
+    });
+    match r {
+        Ok(0) => "ok".to_string(),
+        Ok(_) => "errors".to_string(),
+        Err(m) => format!("panic:{m}"),
+    }
+}
